@@ -1505,6 +1505,10 @@ class System:
             raise ValueError("phase_conf must be a dict or list!")
         if isinstance(self._g[cidx], RLoss) or isinstance(self._g[cidx], VLoss):
             raise ValueError("Loss components does not support load phases!")
+        if self._g[cidx]._component_type == _ComponentTypes.LOAD and not isinstance(
+            phase_conf, dict
+        ):
+            raise ValueError("Load components need a dict with a value for each phase!")
 
         self._g.attrs["phase_conf"][name] = phase_conf
 
